@@ -267,6 +267,17 @@ static void step(int pi, int op, int kid, int vid, int after_set, int lk, int np
                 if (after_set & 2) cx_scribblet(vo, 'v', (vid + 1) % NVAL);
                 if (!(after_set & 4)) readback(on, k, mp, &after);
                 if (po) spif_objpair_del(SPIF_OBJPAIR(po)); else { cx_del_str(ko); cx_del_str(vo); }
+                if ((kid + vid) % 3 == 0) {
+                    /* set(k, get(k)): the argument is the map's own stored value object -- an ideal dictionary is unchanged by it */
+                    spif_obj_t k2 = cx_newt('k', kid), own = SPIF_MAP_GET(mp, k2);
+                    if (own) {
+                        b = SPIF_MAP_SET(mp, k2, own);
+                        CX_CHECK(!!b, on, k, "result-own-value", "set(k%03d, <the value get(k%03d) returned>) returned FALSE (new) for a key that is present", kid, kid);
+                        readback(on, k, mp, &after);
+                        vh_count("set_with_own_value", 1);
+                    }
+                    cx_del_str(k2);
+                }
                 break;
             case OP_GET:
                 ko = cx_newt('k', kid); got = id_val(SPIF_MAP_GET(mp, ko)); CX_DG(got);
